@@ -288,23 +288,8 @@ def place(cx):
     if n < 3:
         raise AnalysisError("only %d heading computations found (3 confirmed by hand)" % n)
     # 3. initial occupancy is computed from the state being stored
-    fk = cx.fn(O, "Obstacle", "initial_state", "set")
-    sp = [a.arg for a in fk.fn.args.args][1]
-    stored = [s for s in walk_no_nested(fk.fn) if isinstance(s, ast.Assign) and any(norm(t) == "self._initial_state" for t in s.targets)]
-    res.check("OCC-PLACE", "initial_state setter stores its argument", bool(stored) and all(norm(s.value) == sp for s in stored), fk.mod, fk.fn, "self._initial_state = %s" % (norm(stored[0].value) if stored else "?"), "the setter does not store the given state", qualname=fk.name)
-    occ = [s for s in walk_no_nested(fk.fn) if isinstance(s, ast.Assign) and any(norm(t) == "self._initial_occupancy_shape" for t in s.targets)]
-    res.check("OCC-PLACE", "initial_state setter recomputes the initial occupancy", bool(occ), fk.mod, fk.fn, "no store of self._initial_occupancy_shape", "the initial occupancy is not the shape placed at the initial state", qualname=fk.name)
-    rd = ReachingDefs(fk.fn)
-    for s in occ:
-        v = s.value
-        ok = isinstance(v, ast.Call) and call_name(v) in ("occupancy_shape_from_state", "shape_group_occupancy_shape_from_state")
-        if ok:
-            args = [canon(a, rd, s, [sp]) for a in v.args]
-            if call_name(v) == "occupancy_shape_from_state":
-                ok = args == ["self.obstacle_shape", sp]
-            else:
-                ok = len(args) == 3 and args[0] == "self.obstacle_shape.shapes" and args[1] == sp and args[2] == "self.wheelbase_lengths"
-        res.check("OCC-PLACE", "initial occupancy = occupancy of (own shape, new initial state)", ok, fk.mod, s, norm(s), "the initial occupancy is computed from something else than the obstacle's shape and the state being stored", qualname=fk.name)
+    # 3. the initial_state setter: decided by abstract evaluation (c04ev.initial_state_rule)
+    _c04ev.initial_state_rule(repo, res, "OCC-PLACE")
     # 4. per-state occupancies of a trajectory prediction: decided by abstract evaluation (c04ev)
     from . import c04ev
 
